@@ -271,9 +271,17 @@ def src_of(node: ast.AST) -> str:
         return ast.dump(node)[:120]
 
 
+_NORM_CACHE: dict[int, tuple] = {}
+
+
 def norm(node: ast.AST) -> str:
     """Normalised statement / expression text: findings are keyed by this, never by line."""
-    return " ".join(src_of(node).split())
+    hit = _NORM_CACHE.get(id(node))
+    if hit is not None and hit[0] is node:
+        return hit[1]
+    txt = " ".join(src_of(node).split())
+    _NORM_CACHE[id(node)] = (node, txt)
+    return txt
 
 
 # ---------------------------------------------------------------------------------------------
@@ -364,10 +372,21 @@ def run_property(prop: str, tier: str, run: Callable[[Ctx], None], meta: dict) -
     evidence_path = os.path.join(os.environ.get("VERIF_EVIDENCE_DIR") or os.path.join(VERIF, "evidence"), f"{prop}.json")
     os.makedirs(os.path.dirname(evidence_path), exist_ok=True)
     out_dir = os.environ.get("VERIF_OUT_DIR") or os.path.join(VERIF, "out")
+    ctx = None
     try:
         repo = Repo()
         ctx = Ctx(prop, tier, repo)
-        run(ctx)
+        try:
+            run(ctx)
+        except AnalysisError as ex:
+            # a violation already established stays a violation; the analysis gap is reported with it
+            known0, _ = load_known()
+            if any(i.status == "finding" and (prop, i.key) not in known0 for i in ctx.instances):
+                print(f"ANALYSIS-INCOMPLETE property={prop} {ex} (violations found before this point are reported)")
+                ctx.notes.append(f"analysis incomplete: {ex}")
+                ctx.floors = {}
+            else:
+                raise
         # floors: a rule that matches (almost) nothing passes vacuously forever
         counts: dict[str, int] = {}
         for inst in ctx.instances:
